@@ -230,6 +230,16 @@ func (server *SugarDB) setValues(ctx context.Context, entries map[string]interfa
 				expireAt = entry.ExpireAt
 			}
 		}
+		if old, ok := server.store[database][key]; ok {
+			// The key is being overwritten: give back what the old entry was accounted for.
+			oldMem, err := old.GetMem()
+			if err != nil {
+				return err
+			}
+			server.memUsed -= oldMem
+			server.memUsed -= int64(unsafe.Sizeof(key))
+			server.memUsed -= int64(len(key))
+		}
 		server.store[database][key] = internal.KeyData{
 			Value:    value,
 			ExpireAt: expireAt,
